@@ -124,6 +124,16 @@ def gen_items(r, scratchdir, n):
         "- decl: void combine(LengthId a, MassId b, TimeId c, ChargeId d, SpinId e)\n")
     os.makedirs(os.path.join(scratchdir, "units"), exist_ok=True)
     items.append({"yaml": shroudrun.write_yaml(os.path.join(scratchdir, "units"), "units.yaml", u), "label": "gen:units", "text": u})
+    # caller-owned results of predefined types (std::string by value, native pointers with +owner(caller)): wrapc records
+    # destructor indices for them; a library processed earlier must not leave any of that behind
+    oa = ("library: owna\ncxx_header: owna.hpp\ndeclarations:\n- decl: std::string getNameA()\n"
+          "- decl: int *makeInts(int n) +owner(caller)+dimension(n)\n- decl: const std::string * newStr() +owner(caller)\n")
+    ob = ("library: ownb\ncxx_header: ownb.hpp\ndeclarations:\n- decl: double *makeReals(int n) +owner(caller)+dimension(n)\n"
+          "- decl: std::vector<int> getVec()\n- decl: std::string getNameB()\n- decl: int *otherInts(int n) +owner(caller)+dimension(n)\n")
+    for nm, t in (("ownA", oa), ("ownB", ob)):
+        os.makedirs(os.path.join(scratchdir, nm), exist_ok=True)
+        y = shroudrun.write_yaml(os.path.join(scratchdir, nm), nm.lower() + ".yaml", t)
+        items.append({"yaml": y, "label": "gen:" + nm, "text": t})
     for nm, t in (("shadowA", a), ("shadowB", b)):
         os.makedirs(os.path.join(scratchdir, nm), exist_ok=True)
         y = shroudrun.write_yaml(os.path.join(scratchdir, nm), "foo.yaml", t)
@@ -146,6 +156,7 @@ def run(ctx):
     try:
         gen = gen_items(r, work, 10 if thorough else 4)
         shadow = [g for g in gen if "shadow" in g["label"]]
+        own = [g for g in gen if "gen:own" in g["label"]]
         # ---------------- (T) regenerate tables, then prove
         info = extract_registry.regenerate(extra_pairs=[(strip(shadow[0]), strip(shadow[1]))])
         ctx.note("translator", {k: v for k, v in info.items() if k != "ambient"})
@@ -221,10 +232,10 @@ def run(ctx):
         if not thorough:
             # all ordered pairs over the quick libraries is 240+: take every pair that mixes languages/wrappers plus a sample
             r.shuffle(pairs)
-            pairs = pairs[:70] + [(shadow[0], shadow[1]), (shadow[1], shadow[0])]
+            pairs = pairs[:70] + [(shadow[0], shadow[1]), (shadow[1], shadow[0]), (own[0], own[1]), (own[1], own[0])]
         else:
             r.shuffle(pairs)
-            pairs = pairs[:1500] + [(shadow[0], shadow[1]), (shadow[1], shadow[0])]
+            pairs = pairs[:1500] + [(shadow[0], shadow[1]), (shadow[1], shadow[0]), (own[0], own[1]), (own[1], own[0])]
         for p in pairs:
             jobs.append((list(p), None, None, "seq"))
         for _ in range(40 if thorough else 3):
@@ -287,6 +298,46 @@ def run(ctx):
                     ctx.fail("populated:%s:%s" % (label(b_it), bad[0]),
                              "files written by %s into a directory already holding %s's output differ from a clean run: %s" % (
                                  label(b_it), label(a_it), bad[:4]), {"first": strip(a_it), "second": strip(b_it), "files": bad[:10]})
+            finally:
+                common.rmtree(d)
+        # populated output directory, second form: the directory already holds files with the generated NAMES whose
+        # contents are related to what will be written (an older, shorter version; a longer one; empty; identical; junk)
+        for b_it in (items[:2] + own[:1] if not thorough else items[:6] + own):
+            ref_exc, ref = alone[label(b_it)]
+            if ref_exc is not None or not ref:
+                continue
+            d = common.scratch()
+            try:
+                planted = {}
+                for fn in sorted(ref):
+                    data = ref[fn]
+                    lines = data.split(b"\n")
+                    how = r.choice(["prefix", "prefix", "extended", "empty", "same", "junk", "first-line"])
+                    if how == "prefix":
+                        new = b"\n".join(lines[: max(1, len(lines) // 2)]) + b"\n"
+                    elif how == "extended":
+                        new = data + b"stale line left by an earlier version\nand another one\n"
+                    elif how == "empty":
+                        new = b""
+                    elif how == "same":
+                        new = data
+                    elif how == "first-line":
+                        new = lines[0] + b"\n"
+                    else:
+                        new = b"unrelated contents\n" * 3
+                    open(os.path.join(d, fn), "wb").write(new.replace(b"<OUTDIR>", d.encode()))
+                    planted[fn] = how
+                e2 = subprocess.run([sys.executable, "-m", "tools.seqrun", json.dumps([dict(strip(b_it), outdir=d)])],
+                                    stdout=subprocess.PIPE, stderr=subprocess.PIPE, text=True, env=_env(), cwd=common.VERIF)
+                after = shroudrun.read_tree(d)
+                ctx.count(1)
+                ctx.nontrivial(("populated-related", label(b_it)))
+                bad = [f for f in ref if after.get(f) != ref[f]]
+                if bad:
+                    ctx.fail("populated-related:%s:%s" % (label(b_it), planted.get(bad[0])),
+                             "%s written into a directory that already held a file of that name (%s version) differs from a clean run: %s" % (
+                                 bad[0], planted.get(bad[0]), bad[:4]),
+                             {"library": strip(b_it), "yaml_text": b_it.get("text"), "planted": {f: planted[f] for f in bad[:10]}, "files": bad[:10]})
             finally:
                 common.rmtree(d)
     finally:
